@@ -238,8 +238,17 @@ class Body:
                 avs = self.vars_of(env, "array[int, 3]")
                 out.append(f"{ch.pick(avs, 'av')}[{ch.draw(3, 'ai')}] = {self.expr(env, 'int')}"
                            if avs else "pass")
-            elif k == 18 and False:
-                pass
+            elif k == 5 and depth == 0 and ch.draw(3, "twins") == 0:
+                # two variables whose names differ only by a leading zero, both kept
+                # alive across the following control flow
+                n = self.counter = self.counter + 1
+                a, b = f"t{n}", f"t0{n}"
+                out.append(f"{a} = {self.expr(env, 'int')}")
+                out.append(f"{b} = {self.expr(env, 'int')}")
+                out.append(f"if {self.expr(env, 'bool')}:")
+                out.append(f"    {a} = {a} + 1")
+                out.append(f"{self.fresh()} = {a} - {b}")
+                env[a], env[b] = "int", "int"
             elif k == 22 and ch.draw(2, "res_or_walrus"):
                 ty = ch.pick(SCALARS, "res_ty")
                 out.append(f"result(\"t{ch.draw(3, 'tag')}\", {self.expr(env, ty)})")
